@@ -340,6 +340,7 @@ class amg {
 
                 if (P && R) {
                     A = C.coarse_operator(*A, *P, *R);
+                    sort_rows(*A);
                 }
 
                 if (this->A) {
